@@ -14,6 +14,7 @@ import DEvo.Run.Migrations
 import DEvo.Run.Load
 import DEvo.Run.Batches
 import DEvo.Run.Merge
+import DEvo.Sql.DbState
 
 /-! Line protocol driver: one JSON object per input line, one JSON object per output line.
 Only model modules (no Mathlib/Batteries) are imported, so this links as a `lean_exe`. -/
@@ -250,6 +251,50 @@ def handle (j : Json) : Except String Json := do
           Json.arr #[Json.str kv.1, Json.arr (kv.2.evolutions.map Json.str).toArray,
                      Json.arr (kv.2.mutations.map Json.str).toArray])).toArray),
         ("new_models", Json.arr (out.newModels.map Json.str).toArray)])
+  | "dbstate" =>
+    -- DatabaseState: a sequence of bookkeeping calls; one result per call, then the final contents
+    let opsJ ← (← j.getObjVal? "ops").getArr?
+    let step (acc : Sql.DbState × List Json) (o : Json) : Except String (Sql.DbState × List Json) := do
+      let (st, outs) := acc
+      let k ← o.getObjValAs? String "k"
+      let t ← o.getObjValAs? String "t"
+      let errName (e : Sql.StErr) : String := match e with
+        | .untracked => "untracked" | .exists_ => "exists" | .notFound => "not-found"
+      let ixJ (ix : Option Sql.Ix) : Json := match ix with
+        | none => Json.null
+        | some i => Json.arr #[Json.str i.name, Json.arr (i.cols.map Json.str).toArray, Json.bool i.unique]
+      match k with
+      | "add_table" => pure (Sql.addTable st t, outs ++ [Json.str "ok"])
+      | "has_table" => pure (st, outs ++ [Json.bool (Sql.hasTable st t)])
+      | "clear" => pure (Sql.clearIndexes st t, outs ++ [Json.str "ok"])
+      | "iter" => pure (st, outs ++ [Json.arr ((Sql.iterIndexes st t).map (fun i => ixJ (some i))).toArray])
+      | "add_index" =>
+        let name ← o.getObjValAs? String "name"
+        let cols ← Codec.strList (← o.getObjVal? "cols")
+        let u ← o.getObjValAs? Bool "unique"
+        match Sql.addIndex st t name cols u with
+        | .ok st' => pure (st', outs ++ [Json.str "ok"])
+        | .error e => pure (st, outs ++ [Json.str (errName e)])
+      | "remove_index" =>
+        let name ← o.getObjValAs? String "name"
+        let u ← o.getObjValAs? Bool "unique"
+        match Sql.removeIndex st t name u with
+        | .ok st' => pure (st', outs ++ [Json.str "ok"])
+        | .error e => pure (st, outs ++ [Json.str (errName e)])
+      | "get_index" =>
+        let name ← o.getObjValAs? String "name"
+        let u ← o.getObjValAs? Bool "unique"
+        pure (st, outs ++ [ixJ (Sql.getIndex st t name u)])
+      | "find_index" =>
+        let cols ← Codec.strList (← o.getObjVal? "cols")
+        let u ← o.getObjValAs? Bool "unique"
+        pure (st, outs ++ [ixJ (Sql.findIndex st t cols u)])
+      | _ => throw "bad dbstate op"
+    let (st, outs) ← opsJ.toList.foldlM step (([] : Sql.DbState), ([] : List Json))
+    pure (Json.mkObj [("results", Json.arr outs.toArray),
+      ("final", Json.arr (st.map (fun (kv : String × Sql.Tbl) => Json.arr #[Json.str kv.1,
+        Json.arr (kv.2.plain.map (fun i => Json.str i.name)).toArray,
+        Json.arr (kv.2.uniq.map (fun i => Json.str i.name)).toArray])).toArray)])
   | "load_attrs" =>
     -- FieldSignature.deserialize: which stored attributes come back (values are JSON texts, none = null)
     let known ← Codec.strList (← j.getObjVal? "known")
